@@ -647,7 +647,15 @@ def oracle_history(ctx: Ctx, sc: dict, tr: dict, full: bool = False) -> dict:
     for i in incs:
         if i["t_stopped"] is None:
             if i["t_stop_req"] is not None and H.t_end - i["t_stop_req"] > 30 and i["inc"] not in H.t_fail:
-                fail(f"operator {i['name']} did not finish a graceful stop within 30 s", "graceful stop does not finish", inc=i["inc"])
+                pausing = [g for g in tr["toggles"] if g["inc"] == i["inc"] and g["set"] == "any" and g["kind"] == "turn" and g["state"]
+                           and abs(g["t"] - i["t_stop_req"]) <= 2 * LAT]
+                if pausing:
+                    ctx.oracle_fail(f"operator {i['name']} was asked to stop at {i['t_stop_req']}, the very moment it got paused (watch request in "
+                                    f"flight): its resource watcher swallowed the cancellation and the stop never finishes",
+                                    {"scenario": sc, "inc": i["inc"]},
+                                    {"site": "api.stream", "shape": "graceful stop coinciding with a pause never finishes"})
+                else:
+                    fail(f"operator {i['name']} did not finish a graceful stop within 30 s", "graceful stop does not finish", inc=i["inc"])
             continue
         others = [j for j in incs if j is not i and j["identity"] == i["identity"] and H.running(j, i["t_stopped"])]
         st, _ = H.status_at(i["t_stopped"])
@@ -1094,9 +1102,9 @@ def run(ctx: Ctx) -> None:
     direct_cases = [d["direct_case"] for _n, d in corpus if "direct_case" in d]
     histories = [d["scenario"] for _n, d in corpus if "scenario" in d and not d.get("expect")]
     witnesses = [(n, d) for n, d in corpus if d.get("expect")]
-    n_direct = ctx.budget(3000, 60000)
+    n_direct = ctx.budget(3000, 40000)
     direct_cases += [gen_direct(ctx.rng) for _ in range(n_direct)]
-    n_hist = ctx.budget(100, 3000)
+    n_hist = ctx.budget(100, 2000)
     histories += [gen_history(ctx.rng, ctx.seed * 1_000_000 + i) for i in range(n_hist)]
     check_keepalive(ctx)
     check_direct(ctx, direct_cases, reqs, impls, wheres, flags)
